@@ -22,22 +22,40 @@ def make_obs(ctx):
     obs.append(Ob('contract:hms', H, 'h_contract', {'PART_CONTRACT': 1, 'SHAPE': 3}, units=UNITS, unwind=3, group='contract',
                   timeout=900, remove_bodies=core.prune_cals([]),
                   bounds={'value': 'time-only h:m:s', 'increment': '-64..64 of h, m, s, d, w, mo, y'}))
-    km, nm = (6, 8) if ctx.tier == 'quick' else (10, 15)
-    obs.append(Ob('seq-days', H, 'h_seq_days', {'KMAX': km, 'NMAX': nm}, units=UNITS, unwind=km + 5, group='seq',
-                  timeout=1500, remove_bodies=core.prune_cals(['daisy']),
-                  bounds={'FIRST': 'any day number 1000..900000', 'LAST': 'within %d days either side' % km,
-                          'INC': '-%d..%d days or weeks, or hours/seconds (must be refused or empty), 0 must be refused' % (nm, nm),
-                          'skip': 'any set of weekdays but all seven', 'compute-from-last': 'both'}))
+    obs.append(Ob('contract:order:daisy', H, 'h_contract_cmp', {'PART_CONTRACT': 1, 'SHAPE': 1}, units=UNITS, unwind=4, group='contract',
+                  timeout=900, remove_bodies=core.prune_cals(['daisy']),
+                  bounds={'values': 'three date-only day numbers 500..905000'}))
+    obs.append(Ob('contract:order:ymd', H, 'h_contract_cmp', {'PART_CONTRACT': 1, 'SHAPE': 2}, units=UNITS, unwind=4, group='contract',
+                  timeout=900, remove_bodies=core.prune_cals(['ymd']),
+                  bounds={'values': 'three date-only ymd values, any year, day 1..31'}))
+
+    def uws(k):
+        # one loop per function in dseq.c's iteration core; the increment stack has one entry
+        return ['date_add.0:2', 'date_neg_dur.0:2', '__durstack_naught_p.0:2', '__seq_this.0:%d' % (k + 3),
+                '__fixup_fst.0:%d' % (k + 3), 'vf_run.0:%d' % (k + 4)]
+    import os
+    km, nm = (int(os.environ.get('VERIF_C15_K', 2)), 8) if ctx.tier == 'quick' else (4, 15)
+    for unit in ('DT_DURD', 'DT_DURWK', 'DT_DURH', 'DT_DURS'):
+        for fl in (0, 1):
+            if fl and unit in ('DT_DURH', 'DT_DURS'):
+                continue
+            obs.append(Ob('seq-days:%s:%s' % (unit[6:].lower(), 'from-last' if fl else 'from-first'), H, 'h_seq_days',
+                          {'KMAX': km, 'NMAX': nm, 'UNIT': unit, 'FROMLAST': fl}, units=UNITS, unwind=km + 3, unwindset=uws(km),
+                          group='seq-days', timeout=1500, remove_bodies=core.prune_cals(['daisy']),
+                          bounds={'FIRST': 'any day number 1000..900000', 'LAST': 'within %d days either side' % km,
+                                  'INC': '-%d..%d %s' % (nm, nm, {'DT_DURD': 'days', 'DT_DURWK': 'weeks', 'DT_DURH': 'hours (must be refused or empty)',
+                                                                  'DT_DURS': 'seconds (must be refused or empty)'}[unit]),
+                                  'skip': 'any set of weekdays but all seven', 'compute-from-last': bool(fl)}))
     for (lo, hi) in ([(1990, 2010)] if ctx.tier == 'quick' else core.year_windows_full(400)):
         obs.append(Ob('seq-months:%d-%d' % (lo, hi), H, 'h_seq_months', {'KMAX': 5 if ctx.tier == 'quick' else 8, 'NMAX': 14, 'YLO': lo, 'YHI': hi},
-                      units=UNITS, unwind=(5 if ctx.tier == 'quick' else 8) + 5, group='seq', timeout=1500,
+                      units=UNITS, unwind=(5 if ctx.tier == 'quick' else 8) + 3, unwindset=uws(5 if ctx.tier == 'quick' else 8), group='seq', timeout=1500,
                       remove_bodies=core.prune_cals(['ymd']),
                       bounds={'FIRST': 'every day of %d..%d' % (lo, hi), 'LAST': 'any date up to 30 years either side',
                               'INC': '-14..14 months or years', 'members': '<= KMAX+1'}))
-    kt = 6 if ctx.tier == 'quick' else 12
-    obs.append(Ob('seq-times', H, 'h_seq_times', {'KMAX': kt, 'NMAX': 59}, units=UNITS, unwind=kt + 5, group='seq', timeout=1500,
+    kt = int(os.environ.get('VERIF_C15_K', 2)) if ctx.tier == 'quick' else 4
+    obs.append(Ob('seq-times', H, 'h_seq_times', {'KMAX': kt, 'NMAX': 59}, units=UNITS, unwind=kt + 3, unwindset=uws(kt), group='seq', timeout=1500,
                   remove_bodies=core.prune_cals([]),
-                  bounds={'FIRST/LAST': 'any two different times of day', 'INC': '-59..59 of h, m, s; or d, w, mo, y (must be refused or empty)',
+                  bounds={'FIRST/LAST': 'any two different times of day', 'INC': '-23..23 h, -59..59 m or s; or d, w, mo, y (must be refused or empty)',
                           'members': '<= %d' % (kt + 1)}))
     return obs
 
@@ -53,4 +71,4 @@ def run(tier, seed):
                      'date-time sequences, compound increments, alternative increments and business days not covered',
                      'sequences with more members than the stated bound are outside',
                      'equal time-of-day bounds are outside (the tool goes once around the clock)'],
-        stubs=['dt_dtadd inside dseq.c: vf_dtadd, the contract proved by contract:*'])
+        stubs=['dt_dtadd, dt_dtcmp, dt_dt_in_range_p inside dseq.c: vf_dtadd, vf_dtcmp, vf_in_range, the contracts proved by contract:*'])
